@@ -175,7 +175,7 @@ func (g *genC11) Config(rng *Rng, tier string) Config {
 	c.Storage.AttestMinToPass = 1
 	c.Storage.ProofWindow = rng.Range(3, 10)
 	c.Storage.CheckWindow = rng.Range(3, 10)
-	c.Files = []FileSpec{{Size: 200, DataSeed: rng.U64()}}
+	c.Files = []FileSpec{{Size: 200, DataSeed: rng.U64()}, {Size: 300, DataSeed: rng.U64()}}
 	c.SeedNames = []SeedName{{Name: "victim", Tld: "jkl", Owner: 1, Expires: 50_000_000}, {Name: "attacker", Tld: "jkl", Owner: 2, Expires: 50_000_000}}
 	g.nb = 14
 	g.net = newNet(rng, nil, 1)
@@ -240,7 +240,18 @@ func (g *genC11) Block(w *World, b int) Block {
 			add(legit)
 		}
 		// part B
-		switch rng.Intn(11) {
+		switch rng.Intn(13) {
+		case 11: // a rolled-back create+update of a feed name, then the real owner creates it, then the first account tries again
+			nm := fmt.Sprintf("late%d", b)
+			st := txStep(mkOp("oracle_create", X).withS("name", nm), mkOp("oracle_update", X).withS("name", nm).withS("data", `{"price":"1"}`),
+				mkOp("bank_send", X).withN("to", 0).withN("amt", 9_000_000_000_000_000_000))
+			st.Fault = "multi_msg"
+			add(st)
+			add(txStep(mkOp("oracle_create", V).withS("name", nm)))
+			add(txStep(mkOp("oracle_update", X).withS("name", nm).withS("data", `{"price":"668"}`)))
+		case 12: // two contracts in one block: the second names the first as creator
+			add(Step{Kind: "contract_post", N: map[string]int64{"contract": X, "creator": X, "file": 0}})
+			add(Step{Kind: "contract_post", N: map[string]int64{"contract": O, "creator": X, "file": 1}})
 		case 9: // spelling variants of somebody else's feed name
 			add(txStep(mkOp("oracle_create", X).withS("name", rng.PickS("VFeed", "vfeed ", " vfeed", "VFEED", "vfeed\t", "vfeed/"))))
 		case 10:
